@@ -28,7 +28,7 @@ LEVEL_NOTE = (
 TECHNIQUE = ("Lean 4 proof (induction over the chunk loop, cell-level invariants, uniqueness of normal forms) over a hand model + "
              "differential correspondence with ppci/format/hexfile.py + independent Lean Intel-HEX reader run on the real output")
 RULE = ("region sets: 1..6 regions, anchors 0/0xFFFF/0x10000/0x1FFFF/0xFFFF0000/0xFFFFFFFF/random 32-bit, sizes {1,2,3,29,30,31,59,60,61,random<=200} "
-        "plus 65535+-2 and 65536*k+-1 (k<=1 quick, k<=3 thorough), neighbours adjacent / gap 1..3 / far; every insertion order for <=4 regions, "
+        "plus 65535+-2 and 65536*k+-1 (thorough: all, k<=3; quick: 65537 and 65536 at 0xF003), neighbours adjacent / gap 1..3 / far; every insertion order for <=4 regions, "
         "sorted+reverse+random orders above; start addresses {0,1,0xFFFF,0x10000,0xFFFFFFFF,random}; overlapping sets, malformed lines and files "
         "for the error behaviour. distinct = distinct (regions in insertion order, start); non-trivial = >=2 regions with an adjacency, or a region "
         "crossing a 64 KiB boundary, or a non-zero start address, or an error outcome")
@@ -147,7 +147,7 @@ CORPUS = [
 
 def big_sizes(thorough):
     if not thorough:
-        return [65535, 65537]
+        return [65537]
     out = [65533, 65534, 65535, 65536, 65537, 65538]
     for k in (2, 3):
         out += [65536 * k - 1, 65536 * k, 65536 * k + 1]
@@ -160,7 +160,7 @@ def gen_cases(ctx):
     for rs, st in CORPUS:
         cases.append((rs, st, "corpus"))
     # every insertion order of small sets
-    nsets = 400 if ctx.thorough else 60
+    nsets = 400 if ctx.thorough else 50
     for _ in range(nsets):
         rs = gen_set(rng, nmax=4 if rng.random() < 0.7 else 6)
         for p in orders(rng, rs, ctx.thorough):
